@@ -111,7 +111,7 @@ def iradon_torch(
     B, A, N = sinograms.shape
 
     device = sinograms.device if device is None else device
-    theta = theta if theta is not None else torch.linspace(0, 180, steps=A, device=device)
+    theta = theta if theta is not None else torch.linspace(0, 180, steps=A + 1, device=device)[:-1]
 
     if theta.shape[0] != A:
         raise ValueError("theta does not match number of projections")
